@@ -47,7 +47,7 @@ LEVEL_TEXT = (
     "C16_data_stall_release_bound, C16_data_progress_rearms, C16_ctrl_write_stall_bound, C16_stall_ends_at_deadline, "
     "C16_dropped_at_deadline, C16_unset_* (unset means unbounded), C16_zero_* (what the value 0 means where) and the "
     "refutation C16_idle_zero_dropped_refuted (finding F15). The wiring the theorems speak about is re-derived from the "
-    "regenerated source facts (C16_wiring_pasv/epsv and 8 structural obligations). The tie to behaviour is sampled: "
+    "regenerated source facts (C16_wiring_pasv/epsv and 9 structural obligations). The tie to behaviour is sampled: "
     "exact agreement of model and real server in VIRTUAL time on the enumerated corpus. Wall-clock promptness (event-loop "
     "latency, OS timers, TCP) is runtime behaviour the model cannot exhibit; the property is therefore PARTIAL: proof about "
     "the timed model + sampled agreement in virtual time."
@@ -748,7 +748,7 @@ def correspondence(ctx, thorough=None):
     rng = ctx.rng
     thorough = (ctx.tier == "thorough") if thorough is None else thorough
     ctx.extra["rule"] = (
-        "cases = script (16 scripted sessions: login, PWD, PASV/EPSV + RETR/STOR/LIST/MLSD with the data channel connected "
+        "cases = script (19 scripted sessions: login, PWD, PASV/EPSV + RETR/STOR/LIST/MLSD with the data channel connected "
         "early / late / never / held) x prefix length k (the peer stalls after k steps: every event index) x (idle, socket, "
         "wait_future) in {None,0,2,5,30}^3 (all 125 for 5 scripts, a covering sample for the others in the quick tier; all in "
         "thorough) + one read-throttled configuration + StreamIO `or` pairs + wait_for cases. A case is non-trivial when its "
